@@ -284,9 +284,11 @@ type stats map[string]int
 
 // checkRead applies the read-back half of the property to one observation.
 //
-//	from:  index of the first record the reader is expected to yield (0 for a read from the first file,
-//	       m+1 for the reader returned by a successful marker search)
-//	exact: the image is undamaged: every record from `from` on must be yielded, then end-of-log
+//	from: index of the first record the reader is expected to yield (0 for a read from the first file, m+1 for
+//	      the reader returned by a successful search for the marker that is record m)
+//
+// d.none (undamaged image): every record from `from` on must be yielded, then end-of-log, without any error.
+// Otherwise: all d.p-from intact records before the damage must be yielded before the reader may stop.
 func checkRead(L *layout, d damage, o readOut, from int, who string) []viol {
 	var vs []viol
 	if o.panicked != "" {
